@@ -14,6 +14,9 @@ import shutil
 import sys
 import tempfile
 
+if os.environ.get("PYTHONHASHSEED") != "0":   # same query text as ./check
+    os.environ["PYTHONHASHSEED"] = "0"
+    os.execv(sys.executable, [sys.executable] + sys.argv)
 ROOT = os.path.dirname(os.path.dirname(os.path.abspath(__file__)))
 sys.path.insert(0, ROOT)
 
